@@ -1,6 +1,7 @@
 import XrsVerif.Core.Wire
 import XrsVerif.Model.Aliasing
 import XrsVerif.Gen.BufProgs
+import XrsVerif.Gen.DaskKinds
 /-! driver commands for C10: the abstract checker's verdict on the generated buffer programs -/
 namespace XrsVerif.Driver
 open XrsVerif XrsVerif.Wire XrsVerif.BP XrsVerif.Meta
@@ -29,6 +30,22 @@ def showMode : Mode → String
 def cmdPrimTable (_ : Args) : String :=
   ";".intercalate (Gen.primTable.map fun p => s!"{p.name}|{showMode p.data}|{showMode p.coords}|{showMode p.attrs}")
 
-def handlersBufProg : List (String × (Args → String)) := [("bufprog", cmdBufProg), ("bufprogs", cmdBufProgs), ("primtable", cmdPrimTable)]
+def showKinds (s : BK.KSet) : String :=
+  ",".intercalate ((if s.l then ["lazy"] else []) ++ (if s.e then ["eager"] else []) ++ (if s.s then ["scalar"] else []))
+
+/-- `daskkind name=<module.function>` -> `ok=<b> kinds=<kinds the Dask path may return | gave-up> size=<n>` -/
+def cmdDaskKind (a : Args) : String := Id.run do
+  let some nm := a.get? "name" | return "bad-args name"
+  let some d := Gen.daskEntries.find? (·.name == nm) | return s!"no-entry {nm}"
+  let kinds := match BK.mayReturnKinds d.nvars d.prog (BK.initEnv d.lazyParams) with
+    | some s => showKinds s
+    | none => "gave-up"
+  return s!"ok={d.ok} kinds={kinds} size={d.prog.size}"
+
+/-- `daskkinds` -> the names of all generated Dask-path entries -/
+def cmdDaskKinds (_ : Args) : String := ",".intercalate (Gen.daskEntries.map (·.name))
+
+def handlersBufProg : List (String × (Args → String)) := [("bufprog", cmdBufProg), ("bufprogs", cmdBufProgs), ("primtable", cmdPrimTable),
+  ("daskkind", cmdDaskKind), ("daskkinds", cmdDaskKinds)]
 
 end XrsVerif.Driver
